@@ -17,9 +17,13 @@ class InvalidNumberOfElementsError(TypeParameterError):
 
 class ArrayType(SerializableType):
     def __init__(self, element_type: SerializableType, capacity: int):
+        from ._composite import ServiceType
+
         super().__init__()
         self._element_type = element_type
         self._capacity = int(capacity)
+        if isinstance(element_type, ServiceType):
+            raise TypeParameterError("Service types are not serializable and cannot be used as array elements")
         if self._capacity < 1:
             raise InvalidNumberOfElementsError("Array capacity cannot be less than 1")
 
